@@ -168,11 +168,18 @@ void mmio_target(uint64_t sel, uint64_t val, uint16_t& off, uint16_t& v) {
         break;
     case 38:
         off = 0x11E;
+        if ((sel >> 9) & 1) // a handful of bases, so that a history writes the same base before and after a Reset
+            v = (uint16_t[]){0x4000, 0x2000, 0xC000, 0x8000}[(sel >> 10) % 4];
         break;
     default:
         off = 0x2A2 + 0x80 * (uint16_t)(sel / 40 % 2);
         break;
     }
+    // a quarter of the writes to the plain configuration registers use one of four values per register: the same value written
+    // before and after a Reset (a binding that remembers what it saw last would drop the second write)
+    if (((sel >> 13) & 3) == 0 && (off == 0x10E || off == 0x110 || off == 0x112 || off == 0x114 || off == 0x116 || off == 0x0CE || off == 0x20C ||
+                                     (off >= 0x206 && off <= 0x20A) || off == 0x2A2 || off == 0x322 || off == 0x184 || off == 0x18C))
+        v = (uint16_t)((off >= 0x10E && off <= 0x112) ? (sel >> 15) & 1 : (uint16_t[]){0x0001, 0x0400, 0x4000, 0xFFFF}[(sel >> 15) % 4]);
 }
 
 // small programs that dirty interpreter-side state (latches, idle flag, banks, loop frames)
